@@ -673,6 +673,47 @@ func rulesC18(c *Ctx) {
 		}
 	})
 
+	c.Rule("R-C18-11", "one session's failure does not starve the others: the fan-out loop of notifySessions attempts every session of its snapshot — no return or break leaves it (the debouncer fires once per burst with no retry, so a session skipped here never hears of the change)", func() {
+		ns := c.Fn(pM, "", "notifySessions")
+		n := 0
+		inspectNoLit(ns.Body, func(x ast.Node) {
+			rs, ok := x.(*ast.RangeStmt)
+			if !ok {
+				return
+			}
+			if _, isSlice := ns.TypeOf(rs.X).Underlying().(*types.Slice); !isSlice {
+				return
+			}
+			n++
+			bad := ""
+			ast.Inspect(rs.Body, func(y ast.Node) bool {
+				switch z := y.(type) {
+				case *ast.FuncLit:
+					return false
+				case *ast.ReturnStmt:
+					bad = "return at " + ns.At(z)
+				case *ast.BranchStmt:
+					if z.Tok == token.BREAK || z.Tok == token.GOTO {
+						bad = z.Tok.String() + " at " + ns.At(z)
+					}
+				case *ast.ForStmt, *ast.RangeStmt, *ast.SwitchStmt, *ast.SelectStmt, *ast.TypeSwitchStmt:
+					// a break inside belongs to it; returns are still looked for
+					ast.Inspect(z, func(w ast.Node) bool {
+						if r, isR := w.(*ast.ReturnStmt); isR {
+							bad = "return at " + ns.At(r)
+						}
+						_, isLit := w.(*ast.FuncLit)
+						return !isLit
+					})
+					return false
+				}
+				return true
+			})
+			c.Check(bad == "", "notifySessions:every-session-attempted", ns, rs, "the loop over the sessions is left only at its end (%s)", bad)
+		})
+		c.Pin("session loops in notifySessions", n, 1)
+	})
+
 	c.Rule("R-C18-6", "a cache fill that follows an RPC is conditional on the cache's invalidation generation read before the RPC; every notification-driven invalidation moves the generation", func() {
 		hs := c.FnObj(pM, "", "handleSend")
 		c.Must(c.P.LookupFuncObj(pM, "methodCache", "putIfCurrent") != nil, "methodCache:generation-guard-exists", nil, nil, "the client cache has an invalidation generation (generation / putIfCurrent): without it a result fetched across an invalidation is cached")
